@@ -190,9 +190,9 @@ func VerifC02Rollback() {
 	preSeq := vSeqIds(r.ot.tree)
 	preStored := len(r.store.changes)
 
-	// a batch: a chain on top of the current head; one member may be refused
+	// a batch: a chain on top of the current head, or forking from the older root; one member may be refused
 	var raws []*treechangeproto.RawTreeChangeWithId
-	prev := ids[1]
+	prev := []string{ids[1], ids[0]}[rt.Choose(2)]
 	anyBad := false
 	for j := 0; j < n; j++ {
 		bad := rt.Choose(2) == 1
@@ -234,6 +234,13 @@ func VerifC02Rollback() {
 		rt.Assert(err2 == nil, "tree-usable-after-rejection")
 		if err2 == nil {
 			rt.Assert(len(res.Added) == 1 && len(res.Added[0].PrevIds) == 1 && res.Added[0].PrevIds[0] == ids[1], "next-change-builds-on-old-head")
+			// and the rejected changes have left no trace: heads and iteration are the old ones plus the new change
+			rt.Assert(len(r.ot.Heads()) == 1 && r.ot.Heads()[0] == ids[n+3], "heads-after-rejection-are-the-new-change-only")
+			seq2 := vSeqIds(r.ot.tree)
+			rt.Assert(len(seq2) == len(preSeq)+1, "iteration-after-rejection-has-no-rejected-change")
+			for _, raw := range raws {
+				rt.Assert(vIndexOf(seq2, raw.Id) < 0, "iteration-after-rejection-has-no-rejected-change")
+			}
 		}
 		rt.Reach("rejected")
 	} else {
